@@ -1,6 +1,7 @@
 package checks
 
 import (
+	"sort"
 	"bytes"
 	"compress/flate"
 	"compress/zlib"
@@ -903,6 +904,18 @@ func c09KeyInfoShapes(c *core.Ctx) {
 	pinBad.IDPCertificate = &junk
 	sps["pinned-garbage"] = pinBad
 	trusts = append(trusts, "fingerprint-unknown-algorithm", "fingerprint-without-algorithm", "pinned-garbage")
+	// IdP metadata whose only signing certificate does not parse (truncated / not base64 / base64 of garbage), and one good after one bad
+	for name, certs := range map[string][]string{"meta-truncated-cert": {cert[:64]}, "meta-not-base64-cert": {"@@@"}, "meta-garbage-cert": {b64([]byte("garbage"))}, "meta-bad-then-good-cert": {cert[:64], cert}} {
+		sp := harness.NewSP(harness.SPOpt{Trust: "meta1"})
+		var kds []saml.KeyDescriptor
+		for _, cs := range certs {
+			kds = append(kds, saml.KeyDescriptor{Use: "signing", KeyInfo: saml.KeyInfo{X509Data: saml.X509Data{X509Certificates: []saml.X509Certificate{{Data: cs}}}}})
+		}
+		sp.IDPMetadata.IDPSSODescriptors[0].KeyDescriptors = kds
+		sps[name] = sp
+		trusts = append(trusts, name)
+	}
+	sort.Strings(trusts[len(trusts)-4:])
 
 	for _, kind := range []string{"response/R", "response/A", "artifact", "logout-form", "logout-redirect"} {
 		for _, sh := range shapes {
